@@ -18,8 +18,10 @@ Monitors and verdicts
     iterations are too heavy for the step counter to get anywhere;
   * exception type of every call: anything but ValueError (incl. ComplexResult), ZeroDivisionError, NoConvergence,
     NotImplementedError escaping -> violation "neither returns nor raises a documented exception";
-  * CPU-time caps (never a violation on their own): T1 per call, extended to T2 only while the step rate projects to
-    reach B; cap reached -> undecided.  MemoryError under the 6 GB address-space limit, child death -> undecided.
+  * CPU-time caps: T1 per call, extended to T2 only while the step rate projects to reach B.  A capped call is compared
+    with the reference release (mpmath 1.3.0): the release returns within T_REF -> the tree gets 25 times that time
+    (at least 30 s / 120 s) in a fresh interpreter, still not back -> violation C24/hang/<function>/<cell>; the release
+    is capped too -> undecided.  MemoryError under the 6 GB address-space limit, child death -> undecided.
 
 Each shard runs its cases in a forked child; the parent (which never executes library code) supervises through a
 pipe, so a hung or crashed case costs one `undecided` and the rest of the shard still runs.  After an interruption
@@ -77,12 +79,13 @@ N_SHARDS = 16
 MEM_LIMIT = 6 * 2**30        # address-space limit of a child (bytes)
 
 RULE = ('seeded stratified generation: every catalog function x argument style (generic, asymptotic edge |z|~c*p and '
-        '|z|~c*sqrt(p), big, tiny, unit circle, near non-positive integers, large order, degenerate parameter pairs) x '
+        '|z|~c*sqrt(p), big, tiny, precision-relative (x + i 2^-k, k swept around the precision), unit circle, near non-positive integers, large order, degenerate parameter pairs) x '
         'precision 10..3500; every case is non-trivial (the call is executed under the step counter); '
         'distinct = distinct (function, exact argument specs, precision)')
 ASSUMPTIONS = ['bounded progress stands in for termination: B logical steps (PY_START + backward JUMP) with B fixed a priori '
                '(2*10^7 for |x|<=10^4, 4*10^8 for |x|<=10^6); a call over B that also fails to finish within 25 times that allowance '
                '(steps, and CPU time of the first pass) is reported as non-terminating; one that finishes is held and listed',
+               'hang oracle: a call that the reference release 1.3.0 completes within 3 s / 8 s CPU must complete in the tree within 25 times that time (at least 30 s / 120 s)',
                'iteration bounds of the anchored loops: 2 wp+200 (psi0 loops), 6 wp+60 m+400 (psi_m loop), 64 doublings (hypsum); legitimate counts are about 0.35 wp / 1.3 wp+13 m / < 20',
                'integer count/order/index arguments are limited to 300 (quick) / 1000 (thorough): recurrences polynomial in them terminate but are outside "moderate size"',
                'documented exceptions = ValueError (incl. ComplexResult), ZeroDivisionError, NoConvergence, NotImplementedError; '
